@@ -7,6 +7,7 @@ Decided:
   R09.2  no all-task aggregate feeds a placement except through dependency edges: every loop over
          project.tasks in placement code selects tasks by identity of an edge's predecessor with this task
   R09.3  the horizon extension (the only project-wide aggregate) can only move the project end later
+  R09.4  attribute inheritance (priority) is transitive: values the parent inherited are passed on like provided ones
 Not decided: the two-run non-interference relation itself.
 """
 from __future__ import annotations
@@ -69,5 +70,53 @@ def run(ctx: Ctx):
     ok = all("'end'" in norm(w.targets[0]) for w in writes)
     ctx.ob("R09.3", f"{ext.qual}: writes only the project end", ext, ok, "no other project attribute is touched" if ok else
            "horizon extension writes other project attributes", key="R09.3|_extendProjectEndIfNeeded|writes")
+    # ---------------------------------------------------------------- R09.4 inheritance is transitive
+    # a container's priority reaches tasks nested more than one level down only if a value the parent itself inherited is
+    # passed on: every guard of `my_attr.inherit(parent_attr.get())` accepts provided OR inherited parent values
+    inh = repo.func("PropertyTreeNode.inheritAttributes")
+    n_inh = 0
+    for c in own_nodes(inh):
+        if not (isinstance(c, ast.Call) and isinstance(c.func, ast.Attribute) and c.func.attr == "inherit" and c.args
+                and "parent_attr" in norm(c.args[0])):
+            continue
+        from .common import enclosing_ifs
+        guards = [(i, b) for (i, b) in enclosing_ifs(c, inh.node) if "parent_attr." in norm(i.test)]
+        n_inh += 1
+
+        def ev(e, prov, inhd):
+            if isinstance(e, ast.BoolOp):
+                vs = [ev(v, prov, inhd) for v in e.values]
+                if any(v is None for v in vs):
+                    return None
+                return all(vs) if isinstance(e.op, ast.And) else any(vs)
+            if isinstance(e, ast.UnaryOp) and isinstance(e.op, ast.Not):
+                v = ev(e.operand, prov, inhd)
+                return None if v is None else not v
+            t = norm(e)
+            if t == "parent_attr.provided":
+                return prov
+            if t == "parent_attr.inherited":
+                return inhd
+            return None
+        ok = True
+        und = False
+        for (i, b) in guards:
+            for prov, inhd in ((True, False), (False, True), (True, True)):
+                v = ev(i.test, prov, inhd)
+                if v is None:
+                    und = True
+                elif (v if b == "T" else not v) is False:
+                    ok = False
+        if und and ok:
+            from ..model import Inconclusive
+            raise Inconclusive(f"inheritAttributes: guard {[norm(i.test) for i, _ in guards]} is not a formula over provided / inherited")
+        ctx.ob("R09.4", f"{inh.qual}: {norm(c)} under {[norm(i.test) for i, _ in guards]}", (inh, c), ok,
+               "a value is passed on whether the parent provided or inherited it" if ok else
+               "a value the parent inherited itself is not passed on: a container's priority stops one nesting level down and deeper "
+               "tasks compete with the default priority",
+               key=key_of("R09.4", inh, None, f"inherit guard {n_inh}"))
+    if n_inh < 2:
+        raise AnchorMissing(f"inheritAttributes: {n_inh} parent inheritance sites found")
+    ctx.floor("R09.4", 2)
     ctx.floor("R09.1", 10)
     ctx.floor("R09.2", 2)
